@@ -377,6 +377,7 @@ class _G:
             "ic_on": rp.random() < 0.4,
             "ic": gen_cache(rp, False),
             "decoy": rp.random() < 0.3,
+            "probe_before_load": rp.random() < 0.4,
         }
 
 
